@@ -18,6 +18,7 @@ SIZE_PATTERNS = {
     "square": ((2, 2, 2), (2, 2, 2)),
     "mixed": ((1, 2, 3), (2, 3, 1)),
     "thin": ((1, 1, 1), (3, 2, 1)),
+    "ones": ((1, 1, 1), (1, 1, 1)),
 }
 
 
